@@ -819,6 +819,26 @@ def translate(text):
     return emit(m)
 
 
+def source_fingerprint(text):
+    """sha1 of the ast (docstrings, comments, layout excluded) of the translated functions"""
+    import hashlib
+    tree = ast.parse(text)
+    parts = []
+    for cname, fnames in (("Streamix", ("__init__", "add")), ("ControlStream", ("__init__",))):
+        cls = _class(tree, cname)
+        for fn in fnames:
+            f = _method(cls, fn)
+            for n in ast.walk(f):
+                if isinstance(n, (ast.FunctionDef, ast.ClassDef)):
+                    n.body = _strip_doc(n.body) or [ast.Pass()]
+            parts.append(ast.dump(f))
+    return hashlib.sha1("\n".join(parts).encode()).hexdigest()
+
+
+# fingerprint of the source text the committed lean/ALV/Gen/C16Src.lean was generated from
+COMMITTED_FROM = "00759d33ea34d003000acc9bc7534551d5fd5920"
+
+
 def read_source():
     with open(os.path.join(common.REPO, "audiolazy", SRC_FILE)) as f:
         return f.read()
@@ -914,8 +934,14 @@ def selftest(text, committed):
     except TranslationError as e:
         return [("translator-selftest", False, "the unchanged source does not translate: %s" % e)]
     same = committed is not None and base == committed
-    res.append(("translator-selftest:committed-file-reproduced", same,
-                "byte-identical" if same else "lean/%s differs from the translation of the source" % GEN_REL))
+    unchanged = source_fingerprint(text) == COMMITTED_FROM
+    # the unchanged source must reproduce the committed file byte for byte; a CHANGED source (other fingerprint) is
+    # re-translated and the theorems are re-checked against the new text: that is the job of the translator, not a failure
+    res.append(("translator-selftest:committed-file-reproduced", same or not unchanged,
+                "byte-identical" if same else
+                ("the source of the translated functions changed (fingerprint %s): regenerated, lean/%s now differs from the "
+                 "committed file; src_*_is_model are checked against the new text" % (source_fingerprint(text)[:12], GEN_REL)
+                 if not unchanged else "lean/%s differs from the translation of the UNCHANGED source" % GEN_REL)))
     bad, notes, skipped = [], [], []
     for name, old, new in EDITS:
         try:
